@@ -19,6 +19,8 @@ probe 180, shutdown 60, term 60, staleRunLock 60; for `sb`: booting 100, probe 3
   cr <o|q|r|e|x|t …>   (one letter per step, no separator)         Pool.Create calls that run to completion with the cloud
      answering ok / quota error / rate-limit error / other error; x = quotaErrorTTL passes, t = the rate-limit hold-off passes
      → per step `c<len(creating)>u<Unallocated>q<AtQuota>w<workers>a<Create returned>` joined by ','
+  rs <o|e|r …>                                                   Pool.runSync with the cloud's Instances() answering ok / error /
+     rate-limit error in turn, then ok → `lists=<n>`: Instances() calls seen, capped at script length + 1
   o1 <st<u>|pa<u/…|->|sd<u>,…>                                 runner objects of one Idle run-mode worker: StartContainer (the
      `crunch-run --detach` stays outstanding), probe applied with the listed uuids, completion of the outstanding start
      → `<S> sg=<…> rg=<…> ex=<…>`, or `panic close of closed channel` (cannot happen since the fix of F15a)
@@ -156,6 +158,14 @@ def stepW (f : List String) : Option String :=
       r.map (fun (p', a) => (p', acc.2 ++ [s!"c{p'.creating}u{p'.unallocated}q{b2s p'.atQuota}w{p'.booting}a{b2s a}"]))
     let r ← script.toList.foldlM step ((⟨0, 0, false, false⟩ : CPool), [])
     if r.2.isEmpty then none else pure (",".intercalate r.2)
+  | ["rs", script] => do
+    let rs ← script.toList.mapM (fun ch => match ch with
+      | 'o' => some ListRes.ok | 'e' | 'r' => some ListRes.err | _ => none)
+    if rs.isEmpty then none else
+    -- every listing is followed by a re-arm, so after the scripted answers the loop lists once more
+    let evs := runSync rs
+    let lists := evs.countP (fun e => match e with | .list _ => true | _ => false)
+    pure s!"lists={if evs.getLast? == some SyncEv.rearm then lists + 1 else lists}"
   | ["o1", ops] => do
     let ops ← (ops.splitOn ",").mapM (fun o =>
       if o.startsWith "st" then (o.drop 2).toString.toNat?.map RWOp.accept
